@@ -223,8 +223,112 @@ func runC20FieldPathsOnInstantiatedType(c *Ctx) {
 	}
 }
 
+// runC20FallbackResolver: C20.9 and C20.10 (seeds C20j, C04i).  The resolver of a dynamically
+// loaded service is a chain: the types of the service's own files first, the global registry as
+// fall-back (error details, Any payloads and extensions of types the service's files do not
+// import).  (C20.9) Each method of the chain asks every member the SAME question - a 'simplified'
+// FindMessageByURL that re-implements URL parsing and calls FindMessageByName behaves differently
+// from the generated-code path, which uses the registry's own URL handling.  (C20.10) Where the
+// bespoke resolver is built, the dynamic registry is wrapped in the chain together with the
+// global registry; returning the bare dynamic registry makes error details of other packages
+// unresolvable for dynamically loaded services only.
+func runC20FallbackResolver(c *Ctx) {
+	p := c.P
+	c.Rule("C20.9", "every method of the fallback resolver delegates to the same method of its members", 1)
+	fb := p.MustNamed("fallbackResolver")
+	n := 0
+	for _, fn := range p.Funcs {
+		if !p.inScope(fn) || fn.Signature.Recv() == nil || fn.Synthetic != "" {
+			continue
+		}
+		rt := fn.Signature.Recv().Type()
+		if pt, ok := rt.(*types.Pointer); ok {
+			rt = pt.Elem()
+		}
+		if !types.Identical(rt, fb) || !strings.HasPrefix(N(fn), "Find") {
+			continue
+		}
+		n++
+		same, other := false, ""
+		for _, call := range Calls(fn) {
+			cc := call.Common()
+			name := ""
+			if cc.IsInvoke() {
+				name = N(cc.Method)
+			} else if sc := cc.StaticCallee(); sc != nil && sc.Signature.Recv() != nil {
+				name = N(sc)
+			}
+			if !strings.HasPrefix(name, "Find") {
+				continue
+			}
+			if name == N(fn) && cc.IsInvoke() {
+				same = true
+			} else {
+				other = name
+			}
+		}
+		c.Check(same && other == "", "C20.9", FuncName(fn), "delegates-same-question", fn.Pos(),
+			"asks each member of the chain the same question ("+N(fn)+")",
+			"this method of the fallback resolver does not simply ask its members the same question (it calls "+other+"): type URLs / names are then interpreted differently for dynamically loaded services than by the global registry that generated services use")
+	}
+	if n == 0 {
+		c.Bad("C20.9", "fallbackResolver", "delegates-same-question", token.NoPos, "no Find* method on the fallback resolver: shape changed")
+	}
+	c.Rule("C20.10", "a bespoke resolver built from the service's files falls back to the global registry", 1)
+	nB := 0
+	for _, fn := range p.Funcs {
+		if !p.inScope(fn) {
+			continue
+		}
+		for _, call := range Calls(fn) {
+			if !IsCallTo(call, "google.golang.org/protobuf/types/dynamicpb.NewTypes") {
+				continue
+			}
+			nB++
+			// the registry must end up as an element of a fallbackResolver literal that also holds GlobalTypes
+			ok := false
+			var walk func(v ssa.Value, depth int)
+			walk = func(v ssa.Value, depth int) {
+				if depth > 6 || v.Referrers() == nil {
+					return
+				}
+				for _, ref := range *v.Referrers() {
+					switch r := ref.(type) {
+					case *ssa.MakeInterface:
+						walk(r, depth+1)
+					case *ssa.Store:
+						// stored into an element of a backing array: look at the array's other stores
+						if ia, isIA := r.Addr.(*ssa.IndexAddr); isIA {
+							if al, isAl := ia.X.(*ssa.Alloc); isAl {
+								for _, st := range storesToElems(al) {
+									for _, l := range Origins(st) {
+										if g, isG := globalOf(l.V); isG && g.Pkg != nil && g.Pkg.Pkg.Path() == "google.golang.org/protobuf/reflect/protoregistry" && g.Name() == "GlobalTypes" {
+											ok = true
+										}
+									}
+								}
+							}
+						}
+					case *ssa.ChangeInterface, *ssa.ChangeType, *ssa.Slice:
+						walk(r.(ssa.Value), depth+1)
+					}
+				}
+			}
+			walk(call.Value(), 0)
+			c.Check(ok, "C20.10", FuncName(fn), "bespoke-resolver-falls-back-to-global", call.Pos(),
+				"the dynamic registry of the service's files is chained with protoregistry.GlobalTypes",
+				"the registry built from the service's files is used on its own, without the global registry as fall-back: for a dynamically loaded service, error details / Any payloads / extensions of types outside the service's imports cannot be resolved (REST errors degrade to 'failed to marshal end error'), while the same schema registered from generated code resolves them")
+		}
+	}
+	if nB == 0 {
+		c.Bad("C20.10", "package", "bespoke-resolver-falls-back-to-global", token.NoPos, "no dynamic type registry is built anywhere: shape changed")
+	}
+}
+
 func runC20(c *Ctx) {
 	defer runC20ComparableResolvers(c)
+	defer runC20FallbackResolver(c)
+	defer runC20StatusMarshalledWithResolver(c)
 	defer runC20FieldPathsOnInstantiatedType(c)
 	defer runC20FloatWidth(c)
 	p := c.P
@@ -683,4 +787,68 @@ func isParentFile(v ssa.Value) bool {
 		}
 	}
 	return false
+}
+
+// runC20StatusMarshalledWithResolver: C20.11 (seed C20l).  Error details are google.protobuf.Any
+// values; rendering them as JSON needs the detail's message type.  For a dynamically loaded
+// service that type may exist only in the service's own resolver, so every function that has the
+// operation at hand renders protobuf JSON through the operation's codec (built with that
+// resolver) or through options that carry a resolver.  Options without one - a package-level
+// "shared marshaller", a bare literal - fall back to the global registry and turn the error into
+// `failed to marshal end error` for dynamically loaded schemas only.
+func runC20StatusMarshalledWithResolver(c *Ctx) {
+	p := c.P
+	c.Rule("C20.11", "functions that have the operation at hand render protobuf JSON with a resolver-carrying marshaller", 0)
+	opT := p.MustNamed("operation")
+	for _, fn := range p.Funcs {
+		if !p.inScope(fn) {
+			continue
+		}
+		hasOp := false
+		for _, prm := range fn.Params {
+			if pt, ok := prm.Type().(*types.Pointer); ok && types.Identical(pt.Elem(), opT) {
+				hasOp = true
+			}
+		}
+		if !hasOp {
+			continue
+		}
+		for _, call := range Calls(fn) {
+			sc := call.Common().StaticCallee()
+			if sc == nil || sc.Signature.Recv() == nil {
+				continue
+			}
+			rt, ok := sc.Signature.Recv().Type().(*types.Named)
+			if !ok || rt.Obj().Name() != "MarshalOptions" || rt.Obj().Pkg() == nil || !strings.HasSuffix(rt.Obj().Pkg().Path(), "protobuf/encoding/protojson") {
+				continue
+			}
+			ld, ok := call.Common().Args[0].(*ssa.UnOp)
+			if !ok || ld.Op != token.MUL {
+				continue
+			}
+			var holder ssa.Value
+			var where *ssa.Function
+			switch x := ld.X.(type) {
+			case *ssa.Global:
+				holder, where = x, x.Pkg.Func("init")
+			case *ssa.Alloc:
+				holder, where = x, fn
+			default:
+				continue
+			}
+			set := false
+			ForEachInstr(where, func(in ssa.Instruction) {
+				st, ok := in.(*ssa.Store)
+				if !ok {
+					return
+				}
+				if fa, ok := st.Addr.(*ssa.FieldAddr); ok && fa.X == holder && FieldOfAddr(fa).Name() == "Resolver" && !IsNilConst(st.Val) {
+					set = true
+				}
+			})
+			c.Check(set, "C20.11", FuncName(fn), "json-marshaller-has-resolver", call.Pos(),
+				"the protojson options used here carry a resolver",
+				"a function that has the operation (and with it the service's resolver) at hand renders protobuf JSON with options that carry no resolver: error details whose type is known only to a dynamically loaded service's resolver cannot be rendered, the client gets 'failed to marshal end error' instead of the backend's code, message and details - for the same schema registered from generated code it works")
+		}
+	}
 }
